@@ -174,37 +174,40 @@ Proof.
 Qed.
 
 (* ------------------------------------------------------------------------------------------- *)
-(* wp: [I] holds after every storage call, [Q] at the end                                      *)
+(* wp: [I] holds after every storage call, [Q] at the end.  [bl]: may the action park for ever   *)
+(* (Block)?  With bl = true a parked action satisfies every postcondition (partial correctness: *)
+(* no further storage call is made); with bl = false a proof of wp shows it never parks.        *)
 (* ------------------------------------------------------------------------------------------- *)
-Fixpoint wp {A} (I : store -> Prop) (m : act A) (st : store) (Q : A -> store -> Prop) : Prop :=
+Fixpoint wp {A} (bl : bool) (I : store -> Prop) (m : act A) (st : store) (Q : A -> store -> Prop) : Prop :=
   match m with
   | Done a => Q a st
   | Call ops k =>
-      I (fst (apply_ops ops st)) /\ wp I (k (snd (apply_ops ops st))) (fst (apply_ops ops st)) Q
+      I (fst (apply_ops ops st)) /\ wp bl I (k (snd (apply_ops ops st))) (fst (apply_ops ops st)) Q
+  | Block => bl = true
   end.
 
-Lemma wp_bind {A B} (I : store -> Prop) (m : act A) (f : A -> act B) st Q :
-  wp I m st (fun a st' => wp I (f a) st' Q) -> wp I (bind m f) st Q.
+Lemma wp_bind {A B} bl (I : store -> Prop) (m : act A) (f : A -> act B) st Q :
+  wp bl I m st (fun a st' => wp bl I (f a) st' Q) -> wp bl I (bind m f) st Q.
 Proof.
-  revert st. induction m as [a|ops k IH]; intros st; simpl; [auto|].
+  revert st. induction m as [a|ops k IH|]; intros st; simpl; [auto| |auto].
   intros [H1 H2]. split; [exact H1|]. now apply IH.
 Qed.
 
-Lemma wp_mono {A} (I I' : store -> Prop) (m : act A) st (Q Q' : A -> store -> Prop) :
-  (forall s, I s -> I' s) -> (forall a s, Q a s -> Q' a s) -> wp I m st Q -> wp I' m st Q'.
+Lemma wp_mono {A} bl (I I' : store -> Prop) (m : act A) st (Q Q' : A -> store -> Prop) :
+  (forall s, I s -> I' s) -> (forall a s, Q a s -> Q' a s) -> wp bl I m st Q -> wp bl I' m st Q'.
 Proof.
-  intros HI HQ. revert st. induction m as [a|ops k IH]; intros st; simpl; [apply HQ|].
+  intros HI HQ. revert st. induction m as [a|ops k IH|]; intros st; simpl; [apply HQ| |auto].
   intros [H1 H2]. split; [now apply HI|]. now apply IH.
 Qed.
 
-Lemma wp_run {A} (I : store -> Prop) (m : act A) st (Q : A -> store -> Prop) b :
-  I st -> wp I m st Q ->
+Lemma wp_run {A} bl (I : store -> Prop) (m : act A) st (Q : A -> store -> Prop) b :
+  I st -> wp bl I m st Q ->
   match run_act b st m with
   | (st1, _, Some a) => Q a st1
   | (st1, _, None) => I st1
   end.
 Proof.
-  revert st b. induction m as [a|ops k IH]; intros st b HI H; simpl in *; [exact H|].
+  revert st b. induction m as [a|ops k IH|]; intros st b HI H; simpl in *; [exact H| |exact HI].
   destruct H as [H1 H2].
   destruct b as [[|n]|].
   - exact HI.
@@ -212,32 +215,10 @@ Proof.
   - destruct (apply_ops ops st) as [st1 rs] eqn:E. cbn [fst snd] in *. now apply IH.
 Qed.
 
-(* ------------------------------------------------------------------------------------------- *)
-(* budgets                                                                                     *)
-(* ------------------------------------------------------------------------------------------- *)
-Lemma run_act_none_some {A} (m : act A) st :
-  exists st1 a, run_act None st m = (st1, None, Some a).
+(* an action proved with bl = false runs to completion when the process does not die *)
+Lemma wp_total {A} (I : store -> Prop) (m : act A) st (Q : A -> store -> Prop) :
+  wp false I m st Q -> exists st1 a, run_act None st m = (st1, None, Some a) /\ Q a st1.
 Proof.
-  revert st. induction m as [a|ops k IH]; intros st; simpl; [eauto|].
-  destruct (apply_ops ops st) as [st1 rs]. apply IH.
-Qed.
-
-Lemma run_act_enough {A} (m : act A) st n :
-  calls m st <= n ->
-  run_act (Some n) st m =
-  (fst (fst (run_act None st m)), Some (n - calls m st), snd (run_act None st m)).
-Proof.
-  revert st n. induction m as [a|ops k IH]; intros st n Hn; simpl in *.
-  - now rewrite Nat.sub_0_r.
-  - destruct n as [|n]; [lia|].
-    destruct (apply_ops ops st) as [st1 rs] eqn:E. cbn [fst snd bpred Nat.pred] in *.
-    rewrite (IH rs st1 n) by lia. destruct (run_act None st1 (k rs)) as [[? ?] ?]. reflexivity.
-Qed.
-
-Lemma run_act_short {A} (m : act A) st n :
-  n < calls m st -> snd (run_act (Some n) st m) = None.
-Proof.
-  revert st n. induction m as [a|ops k IH]; intros st n Hn; simpl in *; [lia|].
-  destruct n as [|n]; [reflexivity|].
-  destruct (apply_ops ops st) as [st1 rs] eqn:E. cbn [fst snd] in *. apply IH. lia.
+  revert st. induction m as [a|ops k IH|]; intros st H; simpl in *; [eauto| |discriminate].
+  destruct H as [_ H2]. destruct (apply_ops ops st) as [st1 rs]. cbn [fst snd] in *. now apply IH.
 Qed.
